@@ -228,11 +228,14 @@ package eventbus
 // RegInv: what shard.mu protects.
 //@ lockinv shard.mu(s) [RegInv.typed] {C01,C02} s.handlers != nil &&
 //@     (forall t type, i int :: {s.handlers[t][i]} 0 <= i && i < len(s.handlers[t]) ==> s.handlers[t][i] != nil && regTyped(s.handlers[t][i], t))
+//@ lockinv shard.mu(s) [RegInv.distinct] {C01,C02,C04} forall t type, i int, j int :: {s.handlers[t][i], s.handlers[t][j]} 0 <= i && i < j && j < len(s.handlers[t]) ==> s.handlers[t][i] != s.handlers[t][j]
+//@ lockinv shard.mu(s) [RegInv.elems] {C01,C02,C04} forall t type, i int :: {s.handlers[t][i]} 0 <= i && i < len(s.handlers[t]) ==> allocated(s.handlers[t][i]) && shared(s.handlers[t][i])
 //@ lockinv shard.mu(s) [RegInv.disjoint] {C01,C02} forall t1 type, t2 type :: t1 != t2 && sarr(s.handlers[t1]) != 0 ==> sarr(s.handlers[t1]) != sarr(s.handlers[t2])
 //@ lockinv shard.mu(s) [RegInv.alloc] {C01,C02} forall t type :: wfslice(s.handlers[t]) && (sarr(s.handlers[t]) == 0 || allocated(sarr(s.handlers[t])))
 
 // Subscribe options: the only values of this type are nil and the four
 // literals below (internalHandler is unexported); each assigns its own field.
+//@ event subOptCall := call SubscribeOption record 0:Int
 //@ callback SubscribeOption(fn, h)
 //@   effect fields h once async sequential filter
 //@   effectstruct internalHandler
@@ -302,7 +305,16 @@ package eventbus
 //@        && len(handlers__2) >= len(acq(shard.handlers[eventType])) - (rangeindex__2 + 1)
 //@   loop 2 invariant [rm.typed] {C01,C02} forall i int :: {handlers__2[i]} 0 <= i && i < len(handlers__2) ==> handlers__2[i] != nil && regTyped(handlers__2[i], typeOf(T))
 //@   loop 2 invariant [rm.frame] {C01,C02} forall a ref :: a != sarr(handlers__2) ==> elemrow(handlers__2, a) == acq(elemrow(handlers__2, a))
+//@   loop 2 invariant [rm.distinct] {C01,C02,C04} forall a int, b int :: {handlers__2[a], handlers__2[b]} 0 <= a && a < b && b < len(handlers__2) ==> handlers__2[a] != handlers__2[b]
+//@   loop 2 invariant [rm.elems] {C01,C02,C04} forall a int :: {handlers__2[a]} 0 <= a && a < len(handlers__2) ==> allocated(handlers__2[a]) && shared(handlers__2[a])
+//@   loop 2 invariant [C04.rm.removed] {C04,C01} forall q int, k int :: {onceHandlersToRemove[q], handlers__2[k]} 0 <= q && q <= rangeindex__2 && 0 <= k && k < len(handlers__2) ==> handlers__2[k] != onceHandlersToRemove[q]
+//@   loop 2 invariant [rm.R.stable] seqeq(onceHandlersToRemove, loopentry(onceHandlersToRemove)) && sarr(onceHandlersToRemove) != sarr(handlers__2)
 //@   loop 3 invariant [idx3] rangeindex__3 < len(handlers__2) && -1 <= rangeindex__3
+//@   loop 3 invariant [rm.nomatch] forall k int :: {handlers__2[k]} 0 <= k && k <= rangeindex__3 ==> handlers__2[k] != onceHandler
+//@   loop 3 invariant [rm.inner.stable] handlers__2 == loopentry(handlers__2) && seqeq(handlers__2, loopentry(handlers__2))
+//@   ensures [C04.rm.section] {C04,C01} cnt(lockShard) == 1 + ite(len(onceHandlersToRemove) > 0, 1, 0) && cnt(unlockShard) == cnt(lockShard)
+//@   at unlock:shard.mu#W1 assert [C04.rm.retired] {C04,C01} forall q int, k int :: {onceHandlersToRemove[q], shard.handlers[eventType][k]} 0 <= q && q < len(onceHandlersToRemove) && 0 <= k && k < len(shard.handlers[eventType]) ==>
+//@        shard.handlers[eventType][k] != onceHandlersToRemove[q]
 //@   at unlock:shard.mu#W1 assert [cs.rm.frame] {C01,C02} forall t type, k int :: {shard.handlers[t][k]} t != eventType && 0 <= k && k < len(acq(shard.handlers[t])) ==>
 //@        len(shard.handlers[t]) == len(acq(shard.handlers[t])) && shard.handlers[t][k] == acq(shard.handlers[t][k])
 //@   at unlock:shard.mu#W1 assert [cs.rm.len] {C01,C02} len(shard.handlers[eventType]) <= len(acq(shard.handlers[eventType]))
@@ -320,6 +332,8 @@ package eventbus
 //@   ensures [C06.runsIfLive] {C06,C04} !ctxSeenDone(ctx) ==> cnt(deliver) == 1
 //@   ensures [C08.cancel.entry] {C08} doneAtEntry(ctx) ==> cnt(deliver) == 0
 //@   ensures [once] cnt(deliver) <= 1
+// the credits are given back only when the handler is through (or was skipped for a cancelled context)
+//@   at call:WaitGroup.Done assert [C06.done.after] {C06} cnt(deliver) == 1 || ctxSeenDone(ctx)
 //@   ensures [args] cnt(deliver) == 1 ==> lastarg(deliver, 0) == handler && lastarg(deliver, 1, Iface) == ctx && lastarg(deliver, 2) == event
 //@        && lastarg(deliver, 3) == bus.panicHandler && lastarg(deliver, 4, Iface) == bus.observability
 //@        && lastarg(deliver, 5, String) == eventTypeName && lastarg(deliver, 6, Bool) == true
@@ -328,6 +342,9 @@ package eventbus
 //@ func Subscribe
 //@   props C01 C02
 //@   requires bus != nil ==> BusInv(bus)
+//@   loop 1 invariant [opts.applied] {C01,C04,C06,C07} cnt(subOptCall) == rangeindex + 1 && (forall k int :: {nth(subOptCall, k, 0)} 0 <= k && k <= rangeindex ==> nth(subOptCall, k, 0) == old(opts[k]))
+//@   ensures [opts.all] {C01,C04,C06,C07} err == nil ==> cnt(subOptCall) == len(opts) && (forall k int :: {nth(subOptCall, k, 0)} 0 <= k && k < len(opts) ==> nth(subOptCall, k, 0) == old(opts[k]))
+//@   at call:SubscribeOption assert [opts.target] {C01,C04,C06,C07} h != nil && fresh(h)
 //@   ensures [err] (err == nil) ==> bus != nil && handler != nil
 //@   ensures [err.invalid] bus == nil || handler == nil ==> err != nil && cnt(lockShard) == 0
 //@   ensures [cs.single] {C02} err == nil ==> cnt(lockShard) == 1 && cnt(unlockShard) == 1
@@ -346,6 +363,9 @@ package eventbus
 //@ func SubscribeContext
 //@   props C01 C02
 //@   requires bus != nil ==> BusInv(bus)
+//@   loop 1 invariant [opts.applied] {C01,C04,C06,C07} cnt(subOptCall) == rangeindex + 1 && (forall k int :: {nth(subOptCall, k, 0)} 0 <= k && k <= rangeindex ==> nth(subOptCall, k, 0) == old(opts[k]))
+//@   ensures [opts.all] {C01,C04,C06,C07} err == nil ==> cnt(subOptCall) == len(opts) && (forall k int :: {nth(subOptCall, k, 0)} 0 <= k && k < len(opts) ==> nth(subOptCall, k, 0) == old(opts[k]))
+//@   at call:SubscribeOption assert [opts.target] {C01,C04,C06,C07} h != nil && fresh(h)
 //@   ensures [err] (err == nil) ==> bus != nil && handler != nil
 //@   ensures [err.invalid] bus == nil || handler == nil ==> err != nil && cnt(lockShard) == 0
 //@   ensures [cs.single] {C02} err == nil ==> cnt(lockShard) == 1 && cnt(unlockShard) == 1
